@@ -31,8 +31,9 @@ mem_xmodel.go, utils.go).
 -/
 namespace XV.Sandbox
 
-abbrev Key := Nat
-abbrev Bucket := Nat
+/-- keys and buckets are plain `Nat`s (notation, so that `omega` sees them) -/
+scoped notation "Key" => Nat
+scoped notation "Bucket" => Nat
 
 structure VData where
   ver : Nat
